@@ -31,6 +31,9 @@ const (
 	addrLen        = 20
 	// maxDocumentSize bounds what dataFetch reads of a fetched document
 	maxDocumentSize = 16 << 20
+	// maxDocumentDepth bounds the nesting of a document dataParse evaluates a selector on
+	// (what common JSON / XML parsers allow by default: 256 ... 1000 levels)
+	maxDocumentDepth = 1000
 )
 
 func mergeErrors(ctx context.Context, cs ...chan error) chan error {
@@ -221,6 +224,13 @@ func dataParse(rawMsg []byte, pathStr string) (msg []byte, err error) {
 	if pathStr == "" {
 		msg = rawMsg
 	} else if strings.HasPrefix(pathStr, "$") {
+		// The evaluator, Unpack and json.Marshal recurse once per nesting level and a
+		// goroutine stack overflow is fatal (no recover): a 1.6 MB document of 800 000
+		// nested arrays, far below maxDocumentSize, ended the process.
+		if jsonDepthExceeds(rawMsg, maxDocumentDepth) {
+			err = errors.New("dataParse: document nested deeper than 1000 levels")
+			return
+		}
 		var nodes []*ajson.Node
 		nodes, err = ajson.JSONPath(rawMsg, pathStr)
 		if err != nil {
@@ -242,6 +252,11 @@ func dataParse(rawMsg []byte, pathStr string) (msg []byte, err error) {
 		if rawMsgXml, err = xmlquery.Parse(bytes.NewReader(rawMsg)); err != nil {
 			return
 		}
+		// same for the XPath evaluator and OutputXML (the parser itself is iterative)
+		if xmlDepthExceeds(rawMsgXml, maxDocumentDepth) {
+			err = errors.New("dataParse: document nested deeper than 1000 levels")
+			return
+		}
 
 		xmlNodes := xmlquery.Find(rawMsgXml, pathStr)
 		for _, xmlNode := range xmlNodes {
@@ -250,6 +265,63 @@ func dataParse(rawMsg []byte, pathStr string) (msg []byte, err error) {
 		}
 	}
 	return
+}
+
+// jsonDepthExceeds reports whether the arrays and objects of a JSON text nest deeper
+// than max: one pass over the bytes, brackets inside strings do not count.
+func jsonDepthExceeds(b []byte, max int) bool {
+	depth, inString, escaped := 0, false, false
+	for _, c := range b {
+		if inString {
+			if escaped {
+				escaped = false
+			} else if c == '\\' {
+				escaped = true
+			} else if c == '"' {
+				inString = false
+			}
+			continue
+		}
+		switch c {
+		case '"':
+			inString = true
+		case '[', '{':
+			depth++
+			if depth > max {
+				return true
+			}
+		case ']', '}':
+			if depth > 0 {
+				depth--
+			}
+		}
+	}
+	return false
+}
+
+// xmlDepthExceeds reports whether a node of the parsed document lies deeper than max
+// levels below the root (walk without recursion along the child / sibling / parent links).
+func xmlDepthExceeds(root *xmlquery.Node, max int) bool {
+	depth := 0
+	for n := root; n != nil; {
+		if n.FirstChild != nil {
+			n = n.FirstChild
+			depth++
+			if depth > max {
+				return true
+			}
+			continue
+		}
+		for n != root && n.NextSibling == nil {
+			n = n.Parent
+			depth--
+		}
+		if n == root {
+			return false
+		}
+		n = n.NextSibling
+	}
+	return false
 }
 
 func genQueryResult(ctx context.Context, submitterc chan []byte, url string, pathStr string, logger log.Logger) (chan []byte, chan error) {
